@@ -231,8 +231,8 @@ pub struct FlowSetHeader {
 #[nom(ExtraArgs(parser: &mut IPFixParser, set_id: u16))]
 pub struct Data {
     #[nom(
-        PreExec = "let template = parser.templates.get(&set_id).cloned().unwrap_or_default();",
-        ErrorIf = "template.get_fields().is_empty() ",
+        PreExec = "let template = parser.templates.get(&set_id);",
+        ErrorIf = "template.is_none_or(|t| t.get_fields().is_empty())",
         Parse = "{ |i| FieldParser::parse::<Template>(i, template) }"
     )]
     pub fields: Vec<BTreeMap<usize, (IPFixField, FieldValue)>>,
@@ -244,8 +244,8 @@ pub struct Data {
 #[nom(ExtraArgs(parser: &mut IPFixParser, set_id: u16))]
 pub struct OptionsData {
     #[nom(
-        PreExec = "let template = parser.options_templates.get(&set_id).cloned().unwrap_or_default();",
-        ErrorIf = "template.get_fields().is_empty() ",
+        PreExec = "let template = parser.options_templates.get(&set_id);",
+        ErrorIf = "template.is_none_or(|t| t.get_fields().is_empty())",
         Parse = "{ |i| FieldParser::parse::<OptionsTemplate>(i, template) }"
     )]
     pub fields: Vec<BTreeMap<usize, (IPFixField, FieldValue)>>,
@@ -328,10 +328,18 @@ impl FieldParser {
     /// Takes a byte stream and a cached template.
     /// Fields get matched to static types.
     /// Returns BTree of IPFix Types & Fields or IResult Error.
-    fn parse<T: CommonTemplate>(
-        i: &[u8],
-        template: T,
-    ) -> IResult<&[u8], Vec<BTreeMap<usize, IPFixFieldPair>>> {
+    fn parse<'a, T: CommonTemplate>(
+        i: &'a [u8],
+        template: Option<&T>,
+    ) -> IResult<&'a [u8], Vec<BTreeMap<usize, IPFixFieldPair>>> {
+        // The cached template is borrowed, not cloned per data set.
+        let Some(template) = template else {
+            return Err(nom::Err::Error(nom::error::Error::new(
+                i,
+                nom::error::ErrorKind::Verify,
+            )));
+        };
+
         let mut fields = vec![];
         let mut remaining = i;
 
